@@ -42,7 +42,7 @@ Check(e) ==
         THEN /\ sorted /\ Len(rep) <= (IF e.kind = "find_node" THEN K ELSE Len(rep))
              /\ SeqSet(rep) \subseteq pool
              /\ \A i \in Top(pool) : i \in SeqSet(rep) \/ Explained(i, pool)
-        ELSE IF e.kind = "put"
+        ELSE IF e.kind = "put" /\ Len(e.requests) > 0    \* a put served from the lookup cache sends no lookup request: nothing to judge here
         THEN /\ SeqSet(e.stores) \subseteq {U[i].addr : i \in SeqSet(e.bearers)}
              /\ \A i \in Top(SeqSet(e.bearers)) : U[i].addr \in SeqSet(e.stores) \/ Explained(i, SeqSet(e.bearers))
         ELSE TRUE
